@@ -252,3 +252,28 @@ Print Assumptions C04_locus_py_initial_states_is_the_model.
 Print Assumptions C04_state_space_py_alpha_is_the_model.
 Print Assumptions C04_state_space_py_alpha_sums_to_one.
 Print Assumptions C04_state_space_py_alpha_support.
+
+(* ---- the enumeration of the state space and the assembly of the rate matrix (StateSpace.get_transitions, _graph_to_matrix, e,
+   _get_initial of both spaces), PINNED in gen/StateSpaceGen.v and re-checked against the source on every run by
+   translate/statespace2coq.py: the assembled matrix is a proper generator (rows sum to zero, off-diagonal entries non-negative), the
+   enumeration is the breadth-first search from the initial state ---- *)
+From PG Require Import proofs.SpaceFacts gen.StateSpaceGen proofs.GenStateSpaceEquiv.
+Theorem C04_state_space_py_rate_matrix_rows_sum_to_zero :
+  forall states trans row, NoDup states -> In row (StateSpace_graph_to_matrix OpsR states trans) -> fold_right Rplus 0%R row = 0%R.
+Proof. exact gen_graph_to_matrix_row_sums. Qed.
+Print Assumptions C04_state_space_py_rate_matrix_rows_sum_to_zero.
+
+Theorem C04_state_space_py_rate_matrix_offdiag_nonneg :
+  forall states trans, rates_nonneg_in trans ->
+    forall i j s t row x,
+      nth_error states i = Some s -> nth_error states j = Some t -> s <> t ->
+      nth_error (StateSpace_graph_to_matrix OpsR states trans) i = Some row -> nth_error row j = Some x -> (0 <= x)%R.
+Proof. exact gen_graph_to_matrix_offdiag_nonneg. Qed.
+Print Assumptions C04_state_space_py_rate_matrix_offdiag_nonneg.
+
+Theorem C04_state_space_py_enumeration_is_bfs_from_the_initial_state :
+  forall (T : Type) (OP : Ops T) (P : params (T:=T)) fuel nl nd n,
+    StateSpace_get_transitions OP P fuel nl nd n
+    = bfs OP P fuel [if p_lc P then LineageCountingStateSpace_get_initial nl nd n else BlockCountingStateSpace_get_initial nl nd n] [] [].
+Proof. exact @gen_get_transitions_is_bfs. Qed.
+Print Assumptions C04_state_space_py_enumeration_is_bfs_from_the_initial_state.
